@@ -34,6 +34,8 @@ CONSTANTS Sizes,       \* sizes a sent Message may have
                        \*   "noid"  acceptance test without the message-id comparison      (spec mutant, shows NeverDeliversUnsent can fail)
                        \*   "nooff" acceptance test without the offset comparison          (spec mutant)
                        \*   "nokey" one ReceiveState shared by all source addresses        (spec mutant)
+                       \*   "srconce" the source address is looked up once per DoInput() call: every packet read by the call is
+                       \*           attributed to the source of the first one                      (spec mutant)
           RECORD,      \* TRUE: `last` describes the step (behaviour generation)
           HIST         \* TRUE: `hist` accumulates the steps (simulation mode)
 
@@ -47,7 +49,7 @@ VARIABLES sq,    \* [Senders -> Seq([n, size])]: Messages handed to the gateway 
           mtu,   \* the constructor argument maxTransferUnit (constant during a behaviour)
           last, hist
 
-vars == <<sent, delivered, pk, cnt, sq, sid, coff, opkt, rs, mtu, last, hist>>
+vars == <<sent, delivered, pk, cnt, rxq, sq, sid, coff, opkt, rs, mtu, last, hist>>
 
 Min(a, b) == IF a < b THEN a ELSE b
 G == [s |-> 0, n |-> 0, o |-> 0]                           \* a byte nobody wrote (SetNumBytes(.., false) keeps whatever was there)
@@ -131,14 +133,15 @@ Runs(buf, i, acc) ==
             THEN Runs(buf, i + 1, [acc EXCEPT ![k].l = @ + 1])
             ELSE Runs(buf, i + 1, Append(acc, Run(c.s, c.n, c.o, 1)))
 
-\* the fragments of one packet from source s, in order; r = ReceiveState of that source; dl = Messages handed over so far
-RECURSIVE Proc(_, _, _, _)
-Proc(s, r, fr, dl) ==
+\* the fragments of one packet written by sender s and attributed to source address a (a = s in the code as it is), in order;
+\* r = ReceiveState of a; dl = Messages handed over so far
+RECURSIVE Proc(_, _, _, _, _)
+Proc(a, s, r, fr, dl) ==
     IF fr = <<>> THEN [r |-> r, dl |-> dl]
     ELSE LET f == Head(fr) IN
-         IF f.tot > MaxIn THEN (IF "F31" \in Deviations THEN [r |-> r, dl |-> dl] ELSE Proc(s, r, Tail(fr), dl))   \* `else break;` (F31) / skip
+         IF f.tot > MaxIn THEN (IF "F31" \in Deviations THEN [r |-> r, dl |-> dl] ELSE Proc(a, s, r, Tail(fr), dl))   \* `else break;` (F31) / skip
          ELSE LET r1 == IF ~r.have THEN (IF f.off = 0 THEN Fresh(f) ELSE r) ELSE r        \* a new ReceiveState only for a first fragment
-              IN IF ~r1.have THEN Proc(s, r1, Tail(fr), dl)
+              IN IF ~r1.have THEN Proc(a, s, r1, Tail(fr), dl)
                  ELSE LET r2   == IF f.off = 0 /\ f.id # r1.id THEN Fresh(f) ELSE r1      \* a new Message begins (only at its beginning)
                           size == Len(r2.buf)
                           acc  == /\ ("noid" \in Deviations \/ f.id = r2.id)
@@ -149,24 +152,46 @@ Proc(s, r, fr, dl) ==
                          THEN LET b == Store(r2.buf, s, f)
                                   o == r2.off + f.len
                               IN IF o = size
-                                 THEN Proc(s, Cleared(r2), Tail(fr), Append(dl, [s |-> s, size |-> size, buf |-> Runs(b, 1, <<>>)]))
-                                 ELSE Proc(s, [r2 EXCEPT !.off = o, !.buf = b], Tail(fr), dl)
-                         ELSE Proc(s, Cleared(r2), Tail(fr), dl)                           \* "Unknown fragment ... ignoring it"
+                                 THEN Proc(a, s, Cleared(r2), Tail(fr), Append(dl, [s |-> a, size |-> size, buf |-> Runs(b, 1, <<>>)]))
+                                 ELSE Proc(a, s, [r2 EXCEPT !.off = o, !.buf = b], Tail(fr), dl)
+                         ELSE Proc(a, s, Cleared(r2), Tail(fr), dl)                           \* "Unknown fragment ... ignoring it"
 
-\* DoInput() with one copy of packet k of sender s waiting in the PacketDataIO
+\* one DoInput() call reads the packets of `batch` one after the other; every packet has its own source address
+RECURSIVE ProcBatch(_, _, _, _)
+ProcBatch(rsAll, batch, i, dl) ==
+    IF i > Len(batch) THEN [rs |-> rsAll, dl |-> dl]
+    ELSE LET e == batch[i]
+             a == IF "srconce" \in Deviations THEN batch[1].s ELSE e.s
+             r == Proc(a, e.s, rsAll[Key(a)], pk[e.s][e.k], dl)
+         IN ProcBatch([rsAll EXCEPT ![Key(a)] = r.r], batch, i + 1, r.dl)
+
+\* a copy of packet k of sender s arrives and the receiver calls DoInput(), which reads what was waiting and then this packet
 Deliver(s, k) ==
     /\ CanTake(s, k) /\ NetTake(s, k)
-    /\ LET r == Proc(s, rs[Key(s)], pk[s][k], <<>>)
-       IN /\ rs' = [rs EXCEPT ![Key(s)] = r.r]
+    /\ LET r == ProcBatch(rs, Batch(s, k), 1, <<>>)
+       IN /\ rs' = r.rs
           /\ delivered' = delivered \o r.dl
-          /\ Rec([a |-> "Deliver", s |-> s, k |-> k, fault |-> Fault(s, k), dl |-> r.dl,
-                  have |-> r.r.have, id |-> r.r.id, off |-> r.r.off, size |-> Len(r.r.buf)])
+          /\ Rec([a |-> "Deliver", s |-> s, k |-> k, fault |-> Fault(s, k), waiting |-> Len(rxq), dl |-> r.dl,
+                  have |-> r.rs[Key(s)].have, id |-> r.rs[Key(s)].id, off |-> r.rs[Key(s)].off, size |-> Len(r.rs[Key(s)].buf)])
+    /\ UNCHANGED <<sent, sq, sid, coff, opkt>>
+\* a copy of packet k of sender s arrives in the receiver's socket; no DoInput() call yet
+Arrive(s, k) ==
+    /\ CanWait(s, k) /\ NetWait(s, k)
+    /\ Rec([a |-> "Arrive", s |-> s, k |-> k, fault |-> Fault(s, k)])
+    /\ UNCHANGED <<sent, delivered, sq, sid, coff, opkt, rs>>
+\* DoInput() with only the waiting packets
+ReadWaiting ==
+    /\ rxq # <<>> /\ NetDrain
+    /\ LET r == ProcBatch(rs, rxq, 1, <<>>)
+       IN /\ rs' = r.rs /\ delivered' = delivered \o r.dl
+          /\ Rec([a |-> "Drain", s |-> rxq[1].s, dl |-> r.dl])
     /\ UNCHANGED <<sent, sq, sid, coff, opkt>>
 
 \* which packet is handed over next is the network's choice
-Receive(s) == \E k \in 1..Len(pk[s]) : Deliver(s, k)
+Receive(s) == \E k \in 1..Len(pk[s]) : Deliver(s, k) \/ Arrive(s, k)
 
-Next == \E s \in Senders :
+Next == \/ ReadWaiting
+        \/ \E s \in Senders :
            \/ \E z \in Sizes : Send(s, z)
            \/ \E m \in {"all", "one", "hold"} : Out(s, m)
            \/ Receive(s)
@@ -196,7 +221,7 @@ Due       == [s \in Senders |-> {n \in 1..Len(sent[s]) : ~Oversize(s, n) /\ ("F3
 AllOut == \A s \in Senders : sq[s] = <<>> /\ opkt[s] = <<>>
 Quiet  == AllOut /\ NetEmpty
 \* nothing is enabled any more
-Done   == AllOut /\ (\A s \in Senders : Len(sent[s]) = MaxMsgs /\ \A k \in 1..Len(pk[s]) : ~CanTake(s, k))
+Done   == AllOut /\ rxq = <<>> /\ (\A s \in Senders : Len(sent[s]) = MaxMsgs /\ \A k \in 1..Len(pk[s]) : ~CanTake(s, k))
 
 PerfectInOrder           == (Faults = {}) => InOrderSoFar(Due)
 PerfectExactlyOnce       == (Faults = {} /\ Quiet) => ExactlyOnceInOrder(Due)
